@@ -175,7 +175,15 @@ impl Ctx {
 
     /// Lexical safety check for anything that names a path outside the sandbox.
     pub fn guard_args<S: AsRef<OsStr>>(&self, args: &[S]) {
-        for a in args {
+        const NOT_PATHS: &[&str] = &["-perm", "-name", "-iname", "-path", "-ipath", "-wholename", "-iwholename", "-lname", "-ilname", "-regex", "-iregex", "-printf", "-size", "-user", "-group", "-type", "-xtype", "-regextype", "-d", "-I", "-i"];
+        for (i, a) in args.iter().enumerate() {
+            // operands that are patterns / modes / formats, not paths
+            if i > 0 && NOT_PATHS.iter().any(|n| args[i - 1].as_ref() == OsStr::new(n)) {
+                continue;
+            }
+            if i > 1 && args[i - 2].as_ref() == OsStr::new("-fprintf") {
+                continue;
+            }
             let b = a.as_ref().as_bytes();
             let risky = b.first() == Some(&b'/') || b.split(|c| *c == b'/').any(|comp| comp == b"..");
             if !risky {
